@@ -87,7 +87,13 @@ pub fn oracle(c: &Case, obs: &mut Obs) -> Check {
     for call in c.calls.iter().flatten() {
         if !expected.contains_key(call) {
             let sh = build(c)?;
-            expected.insert(*call, do_call(&sh.parser, &sh.parsed, &sh.templates, &sh.objects, *call));
+            let alone = do_call(&sh.parser, &sh.parsed, &sh.templates, &sh.objects, *call);
+            if let Err(e) = &alone {
+                if e.starts_with("PANIC") {
+                    return Err(Failure::new("threads: a call executed alone panics (state left behind by an earlier call in this process?)", format!("call {call:?} template={:?} {e}", c.templates.get(match call { Call::Render(t, _) | Call::ParseRender(t, _) => *t }).map(|s| s.chars().take(120).collect::<String>()))));
+                }
+            }
+            expected.insert(*call, alone);
         }
     }
     let expected = Arc::new(expected);
@@ -184,6 +190,11 @@ fn family_case(which: usize, threads: usize, per_thread: usize, reps: u32, seed:
     partials.push(("big".into(), big_partial()));
     templates.push("{% for i in arr %}{% include 'big' k: i %}{% render 'big', k: i %}{% if i == stop %}{% break %}{% endif %}{% ifchanged %}{{ i }}{% endifchanged %}{% endfor %}|{% include 'bad' %}".into());
     templates.push("{% for i in (1..6) %}{% ifchanged %}{{ i | modulo: 2 }}{% endifchanged %}{% if i == 3 %}{% continue %}{% endif %}{% cycle 'a', 'b' %}{% if i == 5 %}{% break %}{% endif %}.{% endfor %}|{% for j in arr %}{% break %}never{% endfor %}".into());
+    // a template that is rejected through the parser's error-reporting path (markup after
+    // multi-byte text on one line) and a large valid one (~45 KB): parsing them side by side
+    // exercises whatever process-wide state the parsing machinery keeps
+    templates.push("ࠀé{%unless''%}{%'%}".into());
+    templates.push(big_partial());
     let nt = templates.len();
     let nd = data.len();
     let mut x = seed.wrapping_mul(6364136223846793005).wrapping_add(1442695040888963407);
@@ -204,7 +215,7 @@ fn family_nth(i: u64, reps: u32) -> Option<Case> {
 }
 
 pub fn run(ctx: &Ctx) {
-    ctx.set_rule("E5 randomised stress with a sequential oracle: scenarios = one shared Parser with a lazy partial store (valid, large, broken and missing partials nobody has touched yet; 100 small partials all used by one template; names resolved through the `.liquid` fallback for one datum and directly for another; one template writing 12 KB) + templates parsed once and shared by reference (stateful constructs: cycle, increment, ifchanged, capture, break/continue, include/render); T in {2, 3, 4, 8, 16} threads released together by a barrier, each performing 3..17 parse/render calls, with per-thread start skews and yield injection, every scenario repeated R times (quick 20, thorough 200) on a fresh parser so that the first simultaneous use of the lazy cache happens every time. Oracle: every concurrent call's result equals the same call executed alone on a fresh parser; all threads terminate within 20 s; afterwards the used parser answers like a fresh one; no panic. evaluations counts concurrent calls; non-trivial = >= 2 threads render the same shared template; distinct by (templates, per-thread call lists, thread count).");
+    ctx.set_rule("E5 randomised stress with a sequential oracle: scenarios = one shared Parser with a lazy partial store (valid, large, broken and missing partials nobody has touched yet; 100 small partials all used by one template; names resolved through the `.liquid` fallback for one datum and directly for another; one template writing 12 KB) + a template rejected through the error-reporting path and a 45 KB template, parsed concurrently + templates parsed once and shared by reference (stateful constructs: cycle, increment, ifchanged, capture, break/continue, include/render); T in {2, 3, 4, 8, 16} threads released together by a barrier, each performing 3..17 parse/render calls, with per-thread start skews and yield injection, every scenario repeated R times (quick 20, thorough 200) on a fresh parser so that the first simultaneous use of the lazy cache happens every time. Oracle: every concurrent call's result equals the same call executed alone on a fresh parser; all threads terminate within 20 s; afterwards the used parser answers like a fresh one; no panic. evaluations counts concurrent calls; non-trivial = >= 2 threads render the same shared template; distinct by (templates, per-thread call lists, thread count).");
     ctx.assume("the harness does not control the scheduler: a race needing a window of a few instructions can be missed (see DESIGN 4.20 / 7)");
     let reps = ctx.pick(20, 200);
     // sub-checks run their cases on the 16 engine shards in parallel; each case itself spawns
